@@ -63,7 +63,7 @@ class Contract:
                  raises=None, modifies=(), effects=(), loops=None, locals=None, inline=False, funcs=None,
                  ghost=None, mode="prove", unroll=None, comps=None, name=None, setup=(), max_paths=None,
                  frame=None, lock=None, replay=None, timeout_ms=None, axioms=(), post_setup=(), pure_result=None, asserts=None, nonlinear=False, unreachable_ok=(),
-                 region=None, sort_facts=True):
+                 region=None, sort_facts=True, feas_timeout_ms=None):
         self.key = key
         self.prop = prop if isinstance(prop, (list, tuple)) else [prop]
         self.short = name or key.split(":", 1)[1]
@@ -95,6 +95,7 @@ class Contract:
         self.nonlinear = nonlinear
         self.region = region
         self.sort_facts = sort_facts
+        self.feas_timeout_ms = feas_timeout_ms   # budget of one branch-feasibility query (unknown counts as feasible: sound)
         self.unreachable_ok = list(unreachable_ok)
         self.pure_result = pure_result
         if pure_result is not None:
@@ -755,6 +756,9 @@ class Verifier:
         self.nonlinear = self.nonlinear or c.nonlinear
         if c.timeout_ms:
             self.timeout_ms = c.timeout_ms
+        saved_feas = self.feas_timeout_ms
+        if getattr(c, "feas_timeout_ms", None):
+            self.feas_timeout_ms = c.feas_timeout_ms
         mod, cls, node = frontend.find_function(c.key, self.repo)
         limit = c.max_paths or self.max_paths
         try:
@@ -775,6 +779,7 @@ class Verifier:
         finally:
             self.timeout_ms = saved_to
             self.nonlinear = saved_nl
+            self.feas_timeout_ms = saved_feas
         if self.exits == 0 and not self.errors:
             self.errors.append("vacuous: no path reaches a function exit (contradictory requires?)")
         # reachability guard against vacuous proofs: every statement of the function must be executed on some path
